@@ -501,7 +501,7 @@ func runKVEnc(c KVEncCase, o *Obs) error {
 func init() { register("TestC18_KV", runKVEnc) }
 
 func TestC18_KV(t *testing.T) {
-	st := newStats(t, "C18", "TestC18_KV", "kv.Open over the fake store with a node encryptor, branch factor 2..4096, 1-24 entries whose keys and values are random 16-byte markers: no node/* object may contain a marker (control: the same run without encryptor must show them); the same content committed by a fresh handle into a second bucket gives the same node names and bytes; building it again in a bucket that already holds the node objects creates no new node object; all entries read back; then either another passphrase or one flipped bit in one stored node must make open/Get fail; non-trivial = a tree of more than one node")
+	st := newStats(t, "C18", "TestC18_KV", "kv.Open over the fake store with a node encryptor, branch factor 2..4096, 1-24 entries whose keys and values are random 16-byte markers: no node/* object may contain a marker (control: the same run without encryptor must show them); the same content committed by a fresh handle into a second bucket gives the same node names and bytes; building it again in a bucket that already holds the node objects creates no new node object; all entries read back; then either another passphrase or one flipped bit in one stored node must make open/Get fail, in half of the cases on a bucket in which two handles committed side by side (the reader merges two current versions, the tampered node may belong to either); non-trivial = a tree of more than one node")
 	checkRapid(t, st, genKVEncCase, runKVEnc)
 }
 
